@@ -244,7 +244,7 @@ class MIL1553Segment(NPDSegment):
     def unpack(self, buffer: bytes) -> bytes:
         """Unpack the buffer into the MIL1553Segment object. Return the remaining bytes after unpacking"""
         remaining = NPDSegment.unpack(self, buffer)
-        (self.blockstatus, self.gap2, self.gap2) = struct.unpack_from(">HBB", self.payload)
+        (self.blockstatus, self.gap1, self.gap2) = struct.unpack_from(">HBB", self.payload)
         self.data = self.payload[4:]
         return remaining
 
